@@ -14,6 +14,12 @@ from .gen import choice
 STRATS = ["subdiff", "fixpoint"]
 SD_PAIRS = [(s, d) for s in B.SOLVERS for d in B.DATAFITS]          # 9 x 14 "entries"
 CELLS_PER_PAIR = len(B.PENALTIES) * 2 * 2 * 2
+# visiting order of the pairs: the compositions the library documents (the catalogue) first, so
+# that a short batch reaches every cell that can be *solved* before the many cells that can
+# only be refused
+_VALID = {(e[0], e[1]) for e in G.CATALOG}
+PAIR_ORDER = [i for i, sd in enumerate(SD_PAIRS) if sd in _VALID] + \
+             [i for i, sd in enumerate(SD_PAIRS) if sd not in _VALID]
 
 
 def n_entries(check):
@@ -156,8 +162,10 @@ def plan_C13(seed, run, engine, tier="quick", entry=None):
         c = run // 16
         local = c % CELLS_PER_PAIR
         step = c // CELLS_PER_PAIR
-        pair = (int(entry) + 16 * step) % len(SD_PAIRS)
-        draw = (step // len(SD_PAIRS) + seed) % 3
+        pos = int(entry) + 16 * step
+        pair = PAIR_ORDER[pos % len(SD_PAIRS)]
+        # the budget / start variant rotates with the cell and with every full pass
+        draw = (pos // len(SD_PAIRS) + local + seed) % 3
         index = pair * CELLS_PER_PAIR + local
     else:
         index = (run + seed * 7919) % N_CELLS
